@@ -1,12 +1,23 @@
 import Driver.C15
 import Driver.Stages
 import Driver.Select
+import Driver.Compile
 
 def main (args : List String) : IO UInt32 := do
   match args with
   | ["C15"] => Driver.runJudge Driver.C15.judge; return 0
   | ["C03"] => Driver.runJudge (Driver.Select.judge "C03"); return 0
   | ["C04"] => Driver.runJudge (Driver.Select.judge "C04"); return 0
+  | ["C02"] => Driver.runJudge (Driver.Compile.judge "C02"); return 0
+  | ["C08"] => Driver.runJudge (Driver.Compile.judge "C08"); return 0
+  | ["C09"] => Driver.runJudge (Driver.Compile.judge "C09"); return 0
+  | ["C10"] => Driver.runJudge (Driver.Compile.judge "C10"); return 0
+  | ["C14"] =>
+    Driver.runJudge (fun j =>
+      match Driver.fieldD j "probe" with
+      | .str "stages" => Driver.Stages.judge "C14" j
+      | _ => Driver.Compile.judge "C14" j)
+    return 0
   | ["C06"] => Driver.runJudge (Driver.Stages.judge "C06"); return 0
   | ["C07"] => Driver.runJudge (Driver.Stages.judge "C07"); return 0
   | _ => IO.eprintln "usage: driver <property>  (cases on stdin, verdicts on stdout)"; return 2
